@@ -252,7 +252,8 @@ func runLint(runner *Runner, rslv resolver.Resolver) error {
 	write(yellow, ":exclamation:%d warnings, ", result.Warnings)
 	writeln(cyan, ":speaker:%d recommendations.", result.Infos)
 
-	if result.Errors > 0 {
+	// On JSON mode, parse error is reported in the JSON but linting has been failed
+	if result.Errors > 0 || result.err != nil {
 		return ErrExit
 	}
 
